@@ -1,0 +1,44 @@
+/*
+* Verification hooks (compiled only with -DSVT_AV1_VERIF).
+*
+* Each hook emits one event at a linearization point (after the state change,
+* while the protecting lock is still held). With the guard off every macro
+* expands to nothing and this header declares nothing.
+*/
+#ifndef EbVerifHooks_h
+#define EbVerifHooks_h
+
+#ifdef SVT_AV1_VERIF
+#ifdef __cplusplus
+extern "C" {
+#endif
+
+/* stream: name of the event stream ("srm", "seg", "pipe", ...)
+ * obj:    address of the object instance the event belongs to (may be NULL)
+ * ev:     event name
+ * nargs/args: integer arguments */
+typedef void (*SvtVerifEmitFn)(const char *stream, const void *obj, const char *ev, int nargs,
+                               const long long *args);
+extern volatile SvtVerifEmitFn svt_verif_emit_fn;
+void svt_verif_set_tracer(SvtVerifEmitFn fn);
+
+#define SVT_VERIF_EV(stream, obj, ev, ...)                                        \
+    do {                                                                          \
+        SvtVerifEmitFn verif_fn_ = svt_verif_emit_fn;                             \
+        if (verif_fn_) {                                                          \
+            const long long verif_a_[] = {0, __VA_ARGS__};                        \
+            verif_fn_(stream, obj, ev, (int)(sizeof(verif_a_) / sizeof(verif_a_[0])) - 1, \
+                      verif_a_ + 1);                                              \
+        }                                                                         \
+    } while (0)
+
+#ifdef __cplusplus
+}
+#endif
+#else
+#define SVT_VERIF_EV(...) \
+    do {                  \
+    } while (0)
+#endif /* SVT_AV1_VERIF */
+
+#endif /* EbVerifHooks_h */
